@@ -70,14 +70,9 @@ fn cli_eval(irr: &SharedIrr, expr: &str) -> Result<Result<Vec<String>, String>, 
     let stop = Arc::new(AtomicBool::new(false));
     let (port, server) = crate::irrd::serve_tcp(irr.clone(), stop.clone()).map_err(|e| format!("FakeIrrd listen: {e}"))?;
     let exe = std::env::current_exe().expect("exe").with_file_name("bgpfubin");
-    let mut child = Command::new(&exe)
-        .env_clear()
-        .args(["-H", "127.0.0.1", "-P", &port.to_string(), "--", expr])
-        .stdin(Stdio::null())
-        .stdout(Stdio::piped())
-        .stderr(Stdio::piped())
-        .spawn()
-        .map_err(|e| format!("spawn {exe:?}: {e}"))?;
+    let mut cmd = Command::new(&exe);
+    cmd.env_clear().args(["-H", "127.0.0.1", "-P", &port.to_string(), "--", expr]).stdin(Stdio::null()).stdout(Stdio::piped()).stderr(Stdio::piped());
+    let mut child = crate::core::spawn_retry(&mut cmd).map_err(|e| format!("spawn {exe:?}: {e}"))?;
     let (mut so, mut se) = (child.stdout.take().expect("stdout"), child.stderr.take().expect("stderr"));
     let t_out = std::thread::spawn(move || {
         let mut v = String::new();
